@@ -1873,7 +1873,7 @@ func (a *align) SubAlign(start, length int) (subalign Alignment, err error) {
 // (0-based inclusive coordinates).
 func (a *align) SelectSites(sites []int) (subalign Alignment, err error) {
 	for _, site := range sites {
-		if site < 0 || site > a.Length() {
+		if site < 0 || site >= a.Length() {
 			err = fmt.Errorf("site is outside the alignment")
 			return
 		}
@@ -1928,7 +1928,7 @@ func (a *align) InversePositions(sites []int) (invsites []int, err error) {
 	invsites = make([]int, 0)
 
 	for _, s := range sites {
-		if s < 0 || s > a.Length() {
+		if s < 0 || s >= a.Length() {
 			err = fmt.Errorf("site is outside the alignment")
 			return
 		}
